@@ -196,4 +196,4 @@ def rpc_states(obs):
 
 
 def benign_notification(text):
-    return text.startswith('<notification xmlns="urn:ietf:params:xml:ns:netconf:notification:1.0"><eventTime>2020')
+    return text.startswith('<notification xmlns="urn:ietf:params:xml:ns:netconf:notification:1.0"><eventTime>20')
